@@ -7,10 +7,14 @@ too-long vectors against (a) the valid sets computed by the Lean model (Adsg.enu
 Lean model of the manager layer (Adsg.managerGet) run on the table extracted from the real encoder, whose
 well-formedness (Adsg.Table.WF) the driver evaluates.
 """
+import contextlib
+import signal
+import time
+
 from .. import encmgr
 from . import c09
 
-RULE = ('size sweep: 1 source with exactly one connection onto k optional targets (exactly k valid matrices) for every '
+RULE = ('pattern-family sweep: all sources k..*, all targets m..* for k in 0..2, m in 0..1, repeat flag, sizes 1x3 / 2x2 / 2x3 x pattern and enumerating encoders; size sweep: 1 source with exactly one connection onto k optional targets (exactly k valid matrices) for every '
         'k = 2..36 (quick) / 2..130 (thorough); seeded connector settings (1-3 sources x 1-4 targets over the C09 degree '
         'alphabet, exclusions, 1-3 existence patterns incl. absent nodes and override lists), every third setting uniform '
         '(all sources alike, all targets alike: the shapes of the pattern encoders) x every registered encoder factory x '
@@ -27,6 +31,27 @@ ASSUMPTIONS = ['encoder-specific encode/decode algorithms are table producers va
 LEANCHECK_MODULES = ['Adsg.Model.Enc', 'Adsg.Props.C10']
 
 
+WATCHDOG_S = 240      # per manager; the slowest manager of the unchanged tree takes a few seconds (see evidence notes)
+MAX_MGR_S = [0.]
+
+
+class Hang(BaseException):
+    pass
+
+
+@contextlib.contextmanager
+def watchdog(seconds):
+    def on_alarm(signum, frame):
+        raise Hang()
+    old = signal.signal(signal.SIGALRM, on_alarm)
+    signal.setitimer(signal.ITIMER_REAL, seconds)
+    try:
+        yield
+    finally:
+        signal.setitimer(signal.ITIMER_REAL, 0)
+        signal.signal(signal.SIGALRM, old)
+
+
 def gen_case(rng):
     ns, nt = rng.choice([(1, 1), (1, 2), (2, 1), (2, 2), (1, 3), (2, 2), (2, 3), (3, 2), (1, 4)])
     sspec = [(rng.choice(c09.ALPHA[:10]), rng.random() < .5) for _ in range(ns)]
@@ -41,9 +66,10 @@ def gen_case(rng):
 def gen_uniform(rng):
     """All sources alike and all targets alike - the shapes the pattern encoders are made for (combining, assigning,
     partitioning, permuting, ...), which random per-node degrees almost never hit."""
-    ns, nt = rng.choice([(1, 2), (1, 3), (1, 4), (2, 2), (2, 3), (3, 2), (3, 3), (2, 4)])
-    s_ = (rng.choice(c09.ALPHA[:10]), rng.random() < .5)
-    t_ = (rng.choice(c09.ALPHA[:10]), rng.random() < .5)
+    ns, nt = rng.choice([(1, 2), (1, 3), (1, 4), (2, 2), (2, 3), (3, 2)])
+    open_ended = [('min', 0), ('min', 1), ('min', 2)]   # assigning / partitioning shapes: k..*
+    s_ = (rng.choice(open_ended if rng.random() < .5 else c09.ALPHA[:10]), rng.random() < .5)
+    t_ = (rng.choice(open_ended if rng.random() < .5 else c09.ALPHA[:10]), rng.random() < .5)
     exists = [{'src': {}, 'tgt': {}}]
     if rng.random() < .3:
         exists.append(c09.gen_existence(rng, ns, nt, p_list=0.))
@@ -70,8 +96,13 @@ def check_case(ctx, rep, sspec, tspec, excluded, exists, facs=None, imputers='sa
         for impf in imps:
             imp_name = type(impf()).__name__
             cls = {'encoder': fac['name'], 'kind': fac['kind'], 'imputer': imp_name}
+            t_mgr = time.time()
             try:
-                mgr = encmgr.make_manager(mkset, fac, impf)
+                with watchdog(WATCHDOG_S):
+                    mgr = encmgr.make_manager(mkset, fac, impf)
+            except Hang:
+                rep.disagree('manager-hangs', inp, {'seconds': WATCHDOG_S, 'where': 'construction'}, cls)
+                continue
             except Exception as e:
                 rep.disagree('manager-ctor-exc', inp, {'exc': repr(e)[:300]}, cls)
                 continue
@@ -81,8 +112,15 @@ def check_case(ctx, rep, sspec, tspec, excluded, exists, facs=None, imputers='sa
             rep.count('mgr:' + fac['name'], 'imputer:' + imp_name)
             # decoding through a lazy / pattern encoder costs up to a second per vector on larger settings
             big = ns * nt > 6 and fac['kind'] in ('lazy', 'pattern')
-            encmgr.contract_check(ctx, rep, mgr, sspec, tspec, excluded, exists, pats, dict(inp, encoder=fac['name'], imputer=imp_name), cls,
-                                  limit=60 if big else 250)
+            try:
+                with watchdog(WATCHDOG_S):
+                    encmgr.contract_check(ctx, rep, mgr, sspec, tspec, excluded, exists, pats,
+                                          dict(inp, encoder=fac['name'], imputer=imp_name), cls, limit=60 if big else 250)
+            except Hang:
+                # a decode (or the listing of the design vectors) that does not come back is a failure of totality
+                rep.disagree('manager-hangs', dict(inp, encoder=fac['name'], imputer=imp_name),
+                             {'seconds': WATCHDOG_S, 'where': 'decode / listing'}, cls)
+            MAX_MGR_S[0] = max(MAX_MGR_S[0], time.time() - t_mgr)
             if ctx.out_of_time():
                 return
 
@@ -95,7 +133,7 @@ def sweep_case(k):
 
 def run(ctx, rep):
     # 1. size sweep (deterministic): number of valid matrices 2 .. K, enumerating / eager / lazy encoders
-    kmax = ctx.pick(36, 130)
+    kmax = ctx.pick(32, 130)
     small = [f for f in encmgr.factories() if f['kind'] == 'enum']
     for k in range(2, kmax + 1):
         if not ctx.mine(k):
@@ -104,8 +142,20 @@ def run(ctx, rep):
         rep.count('stream:size-sweep')
         if ctx.out_of_time():
             break
-    # 2. seeded settings
-    n = ctx.pick(160, 3000)
+    # 2. pattern-family sweep (deterministic): all sources k..*, all targets m..*, uniform repeat flag - the settings the
+    #    assigning / partitioning / combining pattern encoders are made for, for every small k, m and size
+    fam = [(ks, kt, r, sz) for ks in (0, 1, 2) for kt in (0, 1) for r in (False, True) for sz in ((1, 3), (2, 2), (2, 3))]
+    pat = [f for f in encmgr.factories() if f['kind'] in ('pattern', 'enum')]
+    for fi, (ks, kt, r, (ns_, nt_)) in enumerate(fam):
+        if not ctx.mine(fi):
+            continue
+        check_case(ctx, rep, [(('min', ks), r)] * ns_, [(('min', kt), r)] * nt_, [], [{'src': {}, 'tgt': {}}], facs=pat,
+                   imputers='default')
+        rep.count('stream:pattern-family')
+        if ctx.out_of_time():
+            break
+    # 3. seeded settings
+    n = ctx.pick(120, 3000)
     i = 0
     for i in range(n):
         uniform = i % 3 == 2
@@ -116,7 +166,8 @@ def run(ctx, rep):
         rep.count('stream:uniform' if uniform else 'stream:seeded')
         if ctx.out_of_time():
             break
-    rep.notes.append('settings generated: %d; size sweep up to %d valid matrices' % (i + 1, kmax))
+    rep.notes.append('settings generated: %d; size sweep up to %d valid matrices; slowest manager %.1f s (watchdog %d s)'
+                     % (i + 1, kmax, MAX_MGR_S[0], WATCHDOG_S))
 
 
 def _from_inp(inp):
